@@ -288,17 +288,21 @@ func (r *Rediaron) BatchDelete(ctx context.Context, keys []string) error {
 
 // BindStatus is wrapper to adapt etcd bind status
 func (r *Rediaron) BindStatus(ctx context.Context, entityKey, statusKey, statusValue string, ttl int64) error {
-	count, err := r.cli.Exists(ctx, entityKey).Result()
-	if err != nil {
-		return err
-	}
-	// doesn't exist, returns error
-	// to behave just like etcd
-	if count != 1 {
-		return types.ErrInvaildCount
+	// a status without ttl is not bound to the entity, to behave just like etcd:
+	// the agent may report it before core has recorded the entity
+	if ttl != 0 {
+		count, err := r.cli.Exists(ctx, entityKey).Result()
+		if err != nil {
+			return err
+		}
+		// doesn't exist, returns error
+		// to behave just like etcd
+		if count != 1 {
+			return types.ErrInvaildCount
+		}
 	}
 
-	_, err = r.cli.Set(ctx, statusKey, statusValue, time.Duration(ttl)*time.Second).Result()
+	_, err := r.cli.Set(ctx, statusKey, statusValue, time.Duration(ttl)*time.Second).Result()
 	return err
 }
 
